@@ -185,11 +185,6 @@ Definition dec_set (bs : bytes) : option dset :=
   end.
 
 (* template discipline: labels non-empty and pairwise distinct *)
-Fixpoint distinct (l : list (list Z)) : bool :=
-  match l with
-  | [] => true
-  | x :: r => negb (existsb (list_eqb x) r) && distinct r
-  end.
 Definition template_ok (d : dset) : bool :=
   forallb (fun t => nonnil (t_label t)) (ds_tmpl d) && distinct (map t_label (ds_tmpl d)).
 
